@@ -293,6 +293,10 @@ impl IPv4DHTIdentityManager {
             self.identity_cache.get(&identity.ipv4_addr.to_string())
             && cached_at.elapsed().unwrap_or(Duration::MAX) < self.config.identity_refresh_interval
             && cached_identity.node_id == identity.node_id
+            && cached_identity.public_key == identity.public_key
+            && cached_identity.signature == identity.signature
+            && cached_identity.salt == identity.salt
+            && cached_identity.timestamp_secs == identity.timestamp_secs
         {
             return Ok(IPv4VerificationResult {
                 is_valid: true,
